@@ -287,9 +287,17 @@ impl<'p> SessionInner<'p> {
         let path = Path::new(path);
         // `try_exists` fails when the path cannot be inspected (a symlink loop, a
         // directory that cannot be searched): that is an unreadable file, which the
-        // load reports at the import site, and not a missing one.
+        // load reports at the import site, and not a missing one. A path that runs
+        // through a regular file cannot exist and is a missing one.
+        fn candidate_exists(path: &Path) -> bool {
+            match path.try_exists() {
+                Ok(exists) => exists,
+                Err(e) => e.kind() != std::io::ErrorKind::NotADirectory,
+            }
+        }
+
         if path.is_absolute() {
-            if path.try_exists().unwrap_or(true) {
+            if candidate_exists(path) {
                 Some(path.to_path_buf())
             } else {
                 None
@@ -307,7 +315,7 @@ impl<'p> SessionInner<'p> {
                 .chain(self.search_paths.iter().map(PathBuf::as_path))
             {
                 let full_path = base_path.join(path);
-                if full_path.try_exists().unwrap_or(true) {
+                if candidate_exists(&full_path) {
                     return Some(full_path);
                 }
             }
